@@ -83,20 +83,84 @@ for cls, tag in (('OSMObjectBuilder', 'object'), ('ChangesetBuilder', 'changeset
             canaries=['canary:normal', 'canary:throw'], replay=('c03_hostile', lambda cex, o: ['user']),
             note='asserts of the library are proof obligations: the debug build must not abort, the release build must not truncate'))
 
+# ---- layer 2b: PBF tag strings reach the tag list only after the check for embedded zero bytes (finding F6) -------------------------------------
+PBFDEC = 'include/osmium/io/detail/pbf_decoder.hpp'
+TAGSTR = '''
+typedef uint16_t string_size_type;
+struct osm_string_len_type { const char* first; string_size_type second; };
+typedef struct osm_string_len_type osm_string_len_type;
+typedef int TagListBuilder; typedef int Builder; typedef int NodeBuilder; typedef int varint_range;
+struct PBFPrimitiveBlockDecoder { int m_stringtable; };
+size_t ghost_k;      /* ghost: an arbitrary position inside a string */
+/* memchr (C standard): NULL exactly when no byte of the range equals c - stated for the observed position */
+void* verif_memchr(const void* p, int c, size_t n) __CPROVER_requires(__CPROVER_r_ok(p, n)) __CPROVER_assigns()
+  __CPROVER_ensures(__CPROVER_return_value != 0 || ghost_k >= n || ((const char*)p)[ghost_k] != (char)c);
+/* TagListBuilder::add_tag(key, key_length, value, value_length): appends key, NUL, value, NUL. The tag list is a sequence of zero-terminated strings
+   taken in pairs, so a zero byte inside a key or value shifts every following pair and lets the iteration run past the end of the list:
+   the strings must be free of zero bytes */
+void TagListBuilder_add_tag(TagListBuilder* b, const char* key, size_t key_length, const char* value, size_t value_length)
+  __CPROVER_requires(verif_exc == 0 && __CPROVER_r_ok(key, key_length) && __CPROVER_r_ok(value, value_length) && (ghost_k >= key_length || key[ghost_k] != 0) && (ghost_k >= value_length || value[ghost_k] != 0))
+  __CPROVER_assigns(verif_exc) __CPROVER_ensures(verif_exc == 0 || verif_exc == EXC_length_error || verif_exc == EXC_buffer_is_full);
+/* the string table of the block: any entry (pointer into the block data + length); protozero ranges: any content */
+osm_string_len_type ghost_e0, ghost_e1;   /* ghost: two arbitrary entries of the table (set up by the precondition of the unit) */
+const osm_string_len_type* verif_stringtable_at(const int* table, uint32_t index) __CPROVER_requires(verif_exc == 0) __CPROVER_assigns(verif_exc)
+  __CPROVER_ensures(verif_exc == EXC_out_of_range || (verif_exc == 0 && (__CPROVER_return_value == &ghost_e0 || __CPROVER_return_value == &ghost_e1)));
+_Bool verif_range_empty(const varint_range* r) __CPROVER_requires(1) __CPROVER_assigns() __CPROVER_ensures(1);
+uint32_t verif_range_next(varint_range* r) __CPROVER_requires(verif_exc == 0) __CPROVER_assigns(verif_exc) __CPROVER_ensures(verif_exc == 0 || verif_exc == EXC_pbf_error);
+void verif_taglist_builder_open(void) __CPROVER_requires(1) __CPROVER_assigns() __CPROVER_ensures(1);
+'''
+STR_OK = lambda v: '__CPROVER_is_fresh(%s, sizeof(*%s)) && __CPROVER_is_fresh(%s->first, %s->second)' % (v, v, v, v)
+U_pbf_addtag_opt = None
+U_pbf_addtag = Unit(PBFDEC, 'add_tag', cls='PBFPrimitiveBlockDecoder', method=False, cname='pbf_add_tag', params=['TagListBuilder* builder', 'const osm_string_len_type* key_p', 'const osm_string_len_type* value_p'],
+                    pre=[(r'std::memchr\(', 'verif_memchr('), (r'\bkey\.', 'key_p->'), (r'\bvalue\.', 'value_p->'), (r'builder\.add_tag\(', 'TagListBuilder_add_tag(builder, ')])
+ADDTAG_CONTRACT = [('pre', 'requires', 'verif_exc == 0 && ' + STR_OK('key_p') + ' && ' + STR_OK('value_p')),
+                   ('post:only strings without a zero byte are handed to the tag list builder; the others are refused with pbf_error', 'ensures',
+                    'verif_exc == 0 || verif_exc == EXC_pbf_error || verif_exc == EXC_length_error || verif_exc == EXC_buffer_is_full'),
+                   ('frame', 'assigns', 'verif_exc')]
+PIPELINES.append(Pipeline('U_pbf_add_tag', units=[U_pbf_addtag], prelude=TAGSTR, contracts={'pbf_add_tag': ADDTAG_CONTRACT}, replace=['verif_memchr', 'TagListBuilder_add_tag'],
+                          maythrow={'TagListBuilder_add_tag': True}, enforce='pbf_add_tag',
+                          harness='void harness(void) { TagListBuilder* b; const osm_string_len_type *k, *v; pbf_add_tag(b, k, v); __CPROVER_assert(verif_exc != 0, "canary:normal"); __CPROVER_assert(verif_exc == 0, "canary:throw"); }',
+                          canaries=['canary:normal', 'canary:throw'], replay=('c03_hostile', lambda cex, o: ['pbfnul']),
+                          note='the obligation is the precondition of TagListBuilder::add_tag(ptr, len, ptr, len), observed at an arbitrary position of key and value'))
+ADDTAG_CALLEE = [(l, k, t.replace('__CPROVER_is_fresh(', '__CPROVER_r_ok(') if k == 'requires' else t) for l, k, t in ADDTAG_CONTRACT]
+TL_PRE = [(r'osmium::builder::TagListBuilder (\w+)\{\w+\};', r'TagListBuilder verif_tl = 0; TagListBuilder* \1 = &verif_tl; verif_taglist_builder_open();'),
+          (r'const auto& (\w) = m_stringtable\.at\(([^;]*)\);', r'const uint32_t \1_idx = \2; const osm_string_len_type* \1 = verif_stringtable_at(&m_stringtable, \1_idx);'),
+          (r'\b(keys|vals|tags)\.empty\(\)', r'verif_range_empty(\1)'), (r'\b(keys|vals|tags)\.next_u?int32\(\)', r'verif_range_next(\1)'),
+          (r'\badd_tag\((\w+), k, v\);', r'pbf_add_tag(\1, k, v);', '?'),
+          (r'\b\w+\.add_tag\(k\.first, k\.second, v\.first, v\.second\);', 'TagListBuilder_add_tag(builder_any, k->first, k->second, v->first, v->second);', '?')]
+U_btl = Unit(PBFDEC, 'build_tag_list', cls='PBFPrimitiveBlockDecoder', params=['Builder* parent', 'varint_range* keys', 'varint_range* vals'], pre=TL_PRE)
+U_btld = Unit(PBFDEC, 'build_tag_list_from_dense_nodes', cls='PBFPrimitiveBlockDecoder', params=['NodeBuilder* builder_nb', 'varint_range* tags'],
+              pre=[(r'osmium::builder::TagListBuilder tl_builder\{builder\};', 'TagListBuilder verif_tl = 0; TagListBuilder* tl_builder = &verif_tl; verif_taglist_builder_open();')] + TL_PRE[1:])
+import copy as _copy
+U_pbf_addtag_opt = _copy.copy(U_pbf_addtag); U_pbf_addtag_opt.optional = True   # the callers are decided whether or not they go through the checking helper
+TL_MT = {'verif_stringtable_at': False, 'verif_range_next': False, 'pbf_add_tag': True, 'TagListBuilder_add_tag': True}
+for u, fn, args, decl in ((U_btl, 'build_tag_list', 'p, a, b', 'Builder* p; varint_range *a, *b;'), (U_btld, 'build_tag_list_from_dense_nodes', 'p, a', 'NodeBuilder* p; varint_range* a;')):
+    cn = 'PBFPrimitiveBlockDecoder_' + fn
+    PIPELINES.append(Pipeline('U_pbf_' + fn, units=[U_pbf_addtag_opt, u], prelude=TAGSTR + 'TagListBuilder* builder_any;\n', contracts={'pbf_add_tag': ADDTAG_CALLEE, cn: [
+        ('pre:any two table entries', 'requires', 'verif_exc == 0 && __CPROVER_is_fresh(self, sizeof(*self)) && __CPROVER_is_fresh(ghost_e0.first, ghost_e0.second) && __CPROVER_is_fresh(ghost_e1.first, ghost_e1.second)'),
+        ('post:whatever the string table holds, every key and value goes through the zero-byte check before it reaches the tag list', 'ensures',
+         'verif_exc == 0 || verif_exc == EXC_pbf_error || verif_exc == EXC_out_of_range || verif_exc == EXC_length_error || verif_exc == EXC_buffer_is_full'),
+        ('frame', 'assigns', 'verif_exc')]},
+        loops={cn: [['__CPROVER_assigns(verif_exc)', '__CPROVER_loop_invariant(verif_exc == 0)']]},
+        replace=['pbf_add_tag', 'TagListBuilder_add_tag', 'verif_stringtable_at', 'verif_range_empty', 'verif_range_next', 'verif_taglist_builder_open'], maythrow=TL_MT, enforce=cn,
+        harness='void harness(void) { struct PBFPrimitiveBlockDecoder* d; %s %s(d, %s); __CPROVER_assert(verif_exc != 0, "canary:normal"); __CPROVER_assert(verif_exc == 0, "canary:throw"); }' % (decl, cn, args),
+        canaries=['canary:normal', 'canary:throw'], replay=('c03_hostile', lambda cex, o: ['pbfnul']), object_bits=10, timeout=900,
+        note='termination of the loop depends on the protozero range (not decided); the obligations are the preconditions of the calls inside it'))
+
 # ---- layer 4: XML element handlers keep the builder protocol (typestate)
 import specs.c03_xml as XMLSPEC
 PIPELINES += XMLSPEC.pipelines(('c03_xml', lambda cex, o: ['xml']))
 
 TRUSTED = ['expat, zlib, libbz2 internals']
 ASSUMPTIONS = ['input strings shorter than 100000 / 200000 bytes in the models (object-size bound; loop contracts make the proofs independent of it)']
-NOT_DECIDED = ['expat behaviour', 'attribute values inside the XML handlers (the lambdas are replaced by a havoc of their captures)', 'PBF tag strings with embedded NUL (recorded finding F6)',
+NOT_DECIDED = ['expat behaviour', 'attribute values inside the XML handlers (the lambdas are replaced by a havoc of their captures)', 
                'traversal of delivered objects (layout invariant)', 'pipeline-level hangs (threads)', 'allocation failure']
 LEVEL_TEXT = ('Proof for the layers function contracts reach: (1) the text/binary scanning kernels - coordinate parser, OPL integer/string/escape/space/section scanners, UTF-8 decoder, PBF blob header size, '
               'o5m table lookup - are memory-safe on every NUL-terminated string or byte range of any length, throw only documented exceptions and terminate (loop contracts with decreases); these units '
               'are shared with C13, C14 and C02 and re-run here. (2) the object and changeset builders reject user names that do not fit with length_error for every length a parser can hand over - no assert '
-              'can fire, nothing is truncated. (3) the XML element handlers (top_level_element, data_level_element, start_element with get_tag, end_element), extracted whole, keep the builder protocol '
+              'can fire, nothing is truncated. (2b) the PBF decoder hands tag keys and values to the tag list only after a check for embedded zero bytes (the tag list is a sequence of zero-terminated strings; both tag paths, dense and plain). (3) the XML element handlers (top_level_element, data_level_element, start_element with get_tag, end_element), extracted whole, keep the builder protocol '
               'for every element sequence expat can deliver and for every read_types setting: a typestate invariant over the context stack and the eight builder pointers (the shapes of the OSM XML grammar) is '
               'preserved by every handler; sub-builders are created only when no other one is open, destroyed before their parent, dereferenced only while they exist; commit happens with no builder open; '
               'no changeset comment is left unfinished at any handler boundary or on any exception path, so no builder assert can fire when the parser is destroyed.')
-LEVEL_NOTE = ('Trusted: CBMC, extraction rules, strlen and std::string models. Assumed for layer 3: the typestate functions standing for unique_ptr<Builder> and the builder methods (their obligations are the asserts and the stack discipline of the builder classes), a 8-slot model of std::vector<context>, expat delivering matching end tags. Not decided: expat, zlib, libbz2, attribute values inside the XML handlers, embedded NUL bytes in PBF strings (finding F6 recorded), '
+LEVEL_NOTE = ('Trusted: CBMC, extraction rules, strlen and std::string models. Assumed for layer 3: the typestate functions standing for unique_ptr<Builder> and the builder methods (their obligations are the asserts and the stack discipline of the builder classes), a 8-slot model of std::vector<context>, expat delivering matching end tags. Not decided: expat, zlib, libbz2, attribute values inside the XML handlers, '
               'traversal of delivered objects, anything spanning threads.')
